@@ -311,8 +311,15 @@ def gen_case(rng: random.Random) -> Case:
         rng.shuffle(bind_pos)
         bind_pos = bind_pos[:rng.choice([1, 1, 2])]
     alts = []
-    for _ in range(n_alts):
+    i32_positions = [i for i, t in enumerate(types) if t == "i32"]
+    for alt_no in range(n_alts):
         alt = []
+        # the same names may be bound at other (i32) positions in another alternative: then a false guard on the
+        # first alternative must fall through to the second one
+        if bind_pos and alt_no > 0 and len(i32_positions) > len(bind_pos) and rng.random() < 0.6:
+            shuffled = list(i32_positions)
+            rng.shuffle(shuffled)
+            bind_pos = shuffled[:len(bind_pos)]
         for i, t in enumerate(types):
             if bind_pos and i in bind_pos:
                 name = "ab"[bind_pos.index(i)]
